@@ -18,7 +18,9 @@ ASSUMPTIONS = [
     'the Sobolev integrands are |e|^2, sum_i (d_i e)^2, sum_ij (d_i d_j e)^2 summed over components (Props/C11.lean sobolev*)',
     'that the lowered kernel denotes what the generic integrand denotes is C01/C02; here the kernel is compared with the '
     'implementation by correspondence and with the explicit Sobolev formula by the oracle',
-    'the transformation of a Norm to logical coordinates (LogicalExpr) is exercised by the C03/C04 checks',
+    'the transformation of a Norm to logical coordinates (LogicalExpr) is exercised by the C03/C04 checks and, for the '
+    'kernel, by the oracle on mapped domains (both routes, exact and floating-point mappings; float kernels are compared '
+    'with relative tolerance 1e-9)',
 ]
 
 
@@ -230,7 +232,7 @@ MAPPED_ANALYTIC = {
 FLOAT_MTYPES = ('affinef', 'collela')      # floating-point coefficients, metric with off-diagonal entries
 
 
-def mapped_corpus():
+def mapped_corpus(thorough=False):
     """fixed mapped cases (key, mapping type, dim, class name, kind, vector?, route, analytic part)
 
     * the pull-back-first route TerminalExpr(LogicalExpr(Norm(u - f, D), D), D.logical_domain) with a
@@ -247,12 +249,16 @@ def mapped_corpus():
             out.append(('corpus:mapped norm pull-back-first %s %s %dd u - (%s)' % (kind, mt, dim, f),
                         mt, dim, 'Norm', kind, False, 'pull-lower', f))
     for mt, dim in (('affinef', 2), ('collela', 2), ('affinef', 3)):
+        slow = mt == 'collela'      # sympde inverts the Collela Jacobian symbolically for every gradient: 3 s per H1 kernel
         for cn, kind in (('Norm', 'l2'), ('Norm', 'h1'), ('SemiNorm', 'h1'), ('Norm', 'h2'), ('SemiNorm', 'h2')):
-            if kind == 'h2' and mt == 'collela':
+            if kind == 'h2' and slow:
+                continue
+            if slow and (cn, kind) == ('SemiNorm', 'h1') and not thorough:
                 continue
             out.append(('corpus:mapped %s %s float %s %dd scalar' % (cn, kind, mt, dim),
                         mt, dim, cn, kind, False, 'lower-pull', 'x*y + sin(y)'))
-        out.append(('corpus:mapped Norm h1 float %s %dd vector' % (mt, dim), mt, dim, 'Norm', 'h1', True, 'lower-pull', 'x*y'))
+        if not slow or thorough:
+            out.append(('corpus:mapped Norm h1 float %s %dd vector' % (mt, dim), mt, dim, 'Norm', 'h1', True, 'lower-pull', 'x*y'))
         out.append(('corpus:mapped SemiNorm l2 float %s %dd vector' % (mt, dim), mt, dim, 'SemiNorm', 'l2', True, 'lower-pull', 'x**2'))
         out.append(('corpus:mapped norm pull-back-first h1 float %s %dd u - (exp(x))' % (mt, dim),
                     mt, dim, 'Norm', 'h1', False, 'pull-lower', 'exp(x)'))
@@ -270,7 +276,7 @@ def mapped_norm_cases(ctx, o, n):
     the result must be (Sobolev integrand at F(x̂)) · sqrt(det(JᵀJ)) = · |det J|."""
     from harness.mapenv import MEnv
     rng = ctx.rng
-    for key, mt, dim, cn, kind, vec, route, f in mapped_corpus():
+    for key, mt, dim, cn, kind, vec, route, f in mapped_corpus(ctx.thorough):
         env = MEnv(rng, dim, mt, tag='c11k', kinds=('h1', 'undefined'))
         mapped_case(ctx, o, env, cn, kind, vec, route, f, key)
     cycle = ['polyneg', 'poly', 'polyneg', 'affine', 'sym', 'affinef', 'polar', 'collela', 'affine']
@@ -286,7 +292,7 @@ def mapped_norm_cases(ctx, o, n):
         cn = rng.choice(['Norm', 'SemiNorm']) if kind == 'h1' else 'Norm'
         f = rng.choice(['x**2', 'x**2', 'x*y + sin(y)', 'exp(x)', 'x*y'])
         route, vec = 'lower-pull', False
-        if cn == 'Norm' and rng.random() < 0.5:
+        if i >= 5 and cn == 'Norm' and rng.random() < 0.5:      # the first five stay on the route of seed C11-2
             route = 'pull-lower'
         elif dim > 1 and mt not in ('sym', 'collela') and rng.random() < 0.3:
             vec = True
